@@ -20,7 +20,7 @@ def documents():
 
     tests = env.REPO / "hugr-py" / "tests"
     files = [str(tests / f) for f in TEST_FILES if (tests / f).exists()]
-    out, seen = [], set()
+    out, seen, recs = [], set(), []
     with tempfile.TemporaryDirectory(dir="/var/tmp", prefix="verif-corpus-") as logdir:
         e = dict(os.environ)
         e["HUGR_BIN"] = str(env.VERIF / "tools" / "hugr-validate-shim")
@@ -30,12 +30,14 @@ def documents():
         subprocess.run([sys.executable, "-B", "-m", "pytest", "-q", "--no-header", "-p", "no:cacheprovider",
                         "-p", "pytest_snapshot_stub", "--continue-on-collection-errors", "-o", "addopts=", *files],
                        cwd=str(env.REPO / "hugr-py"), env=e, capture_output=True, text=True, timeout=900)
-        for fn in sorted(os.listdir(logdir)):
+        for fn in os.listdir(logdir):
             rec = json.load(open(os.path.join(logdir, fn)))
             for d in rec.get("doc") or []:
-                k = jhash(d)
-                if k not in seen:
-                    seen.add(k)
-                    out.append({"test": rec.get("test", "").split(" ")[0], "doc": d})
-    out.sort(key=lambda c: (c["test"], jhash(c["doc"])))
+                recs.append((rec.get("test", "").split(" ")[0], jhash(d), d))
+    # (file names carry process ids: order and de-duplicate on (test id, document) only, so that the corpus -- and the
+    # index every case's RNG is derived from -- is the same on every run)
+    for test, k, d in sorted(recs, key=lambda x: (x[0], x[1])):
+        if k not in seen:
+            seen.add(k)
+            out.append({"test": test, "doc": d})
     return out
